@@ -10,6 +10,7 @@ Theorem: for every program of the core fragment (every head form × body literal
 every horizon, the stable models of `G P h` are exactly the embeddings of the temporal stable models.
 -/
 import TelProofs.CoreEquiv
+import TelModel.Generated.Directive
 
 namespace TelProofs.C01
 open TelSpec TelModel TelModel.Generated TelProofs
@@ -26,6 +27,30 @@ theorem partCond_spec (root : String) (step i : Int) :
 theorem ground_call_eq (P : TProg) (s : Nat) :
     groundParts (partsOf P) s = (selected P s).map fun pt => ⟨pt.1.name, pt.2, (s : Int)⟩ :=
   groundParts_eq_selected P s
+
+/-- the part name as written in a `#program` directive -/
+def partName : Part → String
+  | .initial => "initial" | .always => "always" | .dynamic => "dynamic" | .final => "final"
+
+/-- E11: `visit_Program`, as regenerated from the source, says what the documentation says: `final` becomes `always`
+    with the final flag set, `base` is `initial`, every other name is kept, no flag -/
+theorem directive_spec (n : String) :
+    Generated.visitProgram n =
+      if n = "final" then ("always", true, "always") else if n = "base" then ("initial", false, "initial") else (n, false, n) := by
+  unfold Generated.visitProgram
+  by_cases h1 : n = "final"
+  · subst h1; decide
+  · by_cases h2 : n = "base"
+    · subst h2; decide
+    · simp [h1, h2]
+
+/-- … and the model's rule classification (`rootOf`, the `__final(t)` literal added exactly for the final part) is what
+    that directive handling does to the four parts -/
+theorem directive_parts (p : Part) :
+    Generated.visitProgram (partName p) = ((rootOf p).name, p == .final, (rootOf p).name) := by
+  cases p <;> decide
+
+theorem directive_base : Generated.visitProgram "base" = ("initial", false, "initial") := by decide
 
 /-- a ground instance at time `k` means what the temporal rule means at position `k` -/
 theorem instance_reading (h : Nat) (W T : Trace) (k : Nat) (hk : k ≤ h) (r : TRule) (hc : ruleCore r = true) :
